@@ -298,10 +298,31 @@ def run(ctx, prog):
                  'write_with_retry can return Ok without write_fn() having returned Ok' if bad else
                  'every Ok return crosses the Ok edge of write_fn() (%d call site)' % len(wf))
     # WMC: who calls write_entry; who touches WalWriter.file
-    callers = sorted(set(c.body.short for c in prog.callers_of('WalWriter::write_entry')))
+    # a call site inside a closure (`entries.iter().try_for_each(|e| self.write_entry(e))`) belongs to the function that owns the closure: the body's root.
+    # (The order write_entry ≺ perform_fsync of such a function is decided above through the closure's must-effect summary at the call that receives it.)
+    def owner(b_):
+        rb_ = prog.bodies.get(b_.root)
+        return rb_.short if rb_ is not None and b_.kind in ('Closure', 'Promoted') else b_.short
+    wsites = prog.callers_of('WalWriter::write_entry')
+    callers = sorted(set(owner(c.body) for c in wsites))
     want = ['persistence::WalWriter::append_batch_internal', 'persistence::WalWriter::append_internal']
-    ctx.inst('C01.R2', 'WalWriter::write_entry', 'callers = {append_internal, append_batch_internal}', callers == want,
-             'callers: %s' % callers)
+    # … and what such a closure returns (the Result of write_entry, passed through) must not get lost one level up: the call of the owner that receives the
+    # closure (`try_for_each`) has its result propagated or returned — R7 sees only the call inside the closure, where the result is "returned"
+    lost = []
+    for c in wsites:
+        if c.body.kind != 'Closure':
+            continue
+        rb_ = prog.bodies.get(c.body.root)
+        recv = [x for x in rb_.calls if c.body.id in x.gc] if rb_ is not None and c.body.parent in (None, rb_.id) else []
+        inner = util.result_use(c.body, c)
+        if not recv or inner not in ('returned', 'propagated'):
+            lost.append('%s: the closure is not handed to a call of its owner function / does not pass the result on (%s)' % (c.body.short, inner))
+        for x in recv:
+            u_ = util.result_use(rb_, x)
+            if u_ not in ('propagated', 'returned'):
+                lost.append('%s: the result of %s at %s, which runs the closure, is %s' % (c.body.short, flow.short(x.callee or '?'), x.loc, u_))
+    ctx.inst('C01.R2', 'WalWriter::write_entry', 'callers = {append_internal, append_batch_internal}', callers == want and not lost,
+             'callers: %s%s' % (sorted(set(c.body.short for c in wsites)), ('; ' + '; '.join(lost)) if lost else ''))
     FILE_OPS = {'persistence::WalWriter::write_entry': {'write_all'},
                 'persistence::WalWriter::rollback_to_offset': {'set_len', 'seek', 'sync_data'},
                 'persistence::WalWriter::perform_fsync': {'flush', 'sync_all', 'sync_data'},
